@@ -82,6 +82,11 @@ def released_clause(st, pre, prev_lists):
     elif k == 'SetChildren' and op[1] < len(heap0):
         keep = set(x for x in op[2] if x is not None)
         out = [c for c in heap0[op[1]][2] if c not in keep]
+    elif k == 'WbsRemoveAll' and op[1] < len(prev_lists) and prev_lists[op[1]] != [10 ** 6]:
+        # every member whose id the filter names (at any depth: a match below a match leaves with it)
+        out = [x for x in prev_lists[op[1]] if x < len(heap0) and heap0[x][0] in op[2]]
+    elif k == 'ChRemoveAll' and op[1] < len(heap0):
+        out = [c for c in heap0[op[1]][2] if c < len(heap0) and heap0[c][0] in op[2]]
     for x in out:
         if x >= len(heap):
             continue
